@@ -13,6 +13,8 @@ import traceback
 
 VERIF = os.path.dirname(os.path.dirname(os.path.abspath(__file__)))
 sys.path.insert(0, VERIF)
+# where evidence/ and replays/ are written (only the seeded-change harness redirects this)
+OUT = os.environ.get("VERIF_OUT") or VERIF
 
 from pyvc import props as P  # noqa: E402
 
@@ -51,7 +53,7 @@ def native_enum(C, n, seed, pid):
     """function-level BOUNDED stand-in / CPython cross-check: n random admissible inputs through the real function"""
     from pyvc.program import scratch_dir
     req = dict(mode="enumerate", module=C.module, cls=C.clsname, case=C.case_name, n=n, seed=seed)
-    path = os.path.join(VERIF, "replays", pid, "enum_" + _safe(C.name) + ".json")
+    path = os.path.join(OUT, "replays", pid, "enum_" + _safe(C.name) + ".json")
     with open(path, "w") as f:
         json.dump(req, f)
     env = dict(os.environ, PYTHONPATH=scratch_dir() + os.pathsep + VERIF, PYTHONDONTWRITEBYTECODE="1")
@@ -100,11 +102,11 @@ def main(argv):
     seed = int(os.environ.get("VERIF_SEED", "0") or 0)
     t_start = time.time()
     cfg = P.PROPS[pid]
-    evidence_path = os.path.join(VERIF, "evidence", "%s.json" % pid)
+    evidence_path = os.path.join(OUT, "evidence", "%s.json" % pid)
     if os.path.exists(evidence_path):
         os.unlink(evidence_path)
-    os.makedirs(os.path.join(VERIF, "evidence"), exist_ok=True)
-    os.makedirs(os.path.join(VERIF, "replays", pid), exist_ok=True)
+    os.makedirs(os.path.join(OUT, "evidence"), exist_ok=True)
+    os.makedirs(os.path.join(OUT, "replays", pid), exist_ok=True)
 
     from pyvc.program import Program
     from pyvc.engine import Verifier, load_contract_modules
@@ -200,7 +202,7 @@ def main(argv):
     bounded = None
     if cfg.get("bounded"):
         from pyvc.program import scratch_dir
-        out_json = os.path.join(VERIF, "replays", pid, "bounded_%s.json" % tier)
+        out_json = os.path.join(OUT, "replays", pid, "bounded_%s.json" % tier)
         env = dict(os.environ, PYTHONPATH=scratch_dir() + os.pathsep + VERIF, PYTHONDONTWRITEBYTECODE="1",
                    VERIF_SEED=str(seed), VERIF_TIER=tier)
         cmd = ["/venv/bin/python", "-m", "bounded.run", pid, tier, out_json]
@@ -242,7 +244,7 @@ def main(argv):
             print("KNOWN-FINDING: property=%s %s" % (pid, kf["text"]))
     for ob, path, suffix in violations:
         if not path:
-            path = os.path.join(VERIF, "replays", pid, _safe(ob["name"]) + ".json")
+            path = os.path.join(OUT, "replays", pid, _safe(ob["name"]) + ".json")
             with open(path, "w") as f:
                 json.dump(ob, f, indent=1, default=str)
         print(("VIOLATION property=%s replay=%s obligation=%s %s" % (pid, path, ob["name"], suffix)).rstrip())
